@@ -467,8 +467,9 @@ fn gen_hal(tier: &str, rng: &mut Rng, out: &mut Vec<Rec>) {
         let rcol = rng.below(rcols as u64) as usize;
         let (acol, bcol) = (rng.below(acols as u64) as usize, rng.below(if code == 5004 { acols } else { bcols } as u64) as usize);
         // prepared sizes: mostly the operand's own size, sometimes shorter / longer (mask lands on limb min(res, a) - 1)
-        let pasz = match rng.below(5) { 0 => rng.range(1, asize as i64 + 1) as usize, _ => asize };
-        let pbsz = if code == 5004 { pasz } else { match rng.below(5) { 0 => rng.range(1, bsize as i64 + 1) as usize, _ => bsize } };
+        // (a prepared operand with MORE limbs than its source exercises the zero-fill of the padding limbs inside every block)
+        let pasz = match rng.below(6) { 0 => rng.range(1, asize as i64 + 1) as usize, 1 => asize + rng.range(1, 2) as usize, _ => asize };
+        let pbsz = if code == 5004 { pasz } else { match rng.below(6) { 0 => rng.range(1, bsize as i64 + 1) as usize, 1 => bsize + rng.range(1, 2) as usize, _ => bsize } };
         let (ea, eb) = (pasz, if code == 5003 { bsize } else { pbsz });
         let full = ea + eb;
         let rsize = match rng.below(4) { 0 => rng.range(1, full as i64 + 2) as usize, 1 => full, 2 => full.saturating_sub(1).max(1), _ => rng.range(1, full as i64) as usize };
